@@ -100,7 +100,7 @@ def run(tier, seed, replay=None):
         payload = json.load(open(replay))["payload"]
         scns = [payload["meta"]]
     else:
-        mc = tlc.model_check(SPEC, cfg_text=cfg_text, coverage=True, timeout=3000)
+        mc = tlc.model_check(SPEC, cfg_text=cfg_text, coverage=(tier == "thorough"), timeout=3000)
         if mc.get("never_taken"):
             raise tlc.TLCError(f"vacuity: actions never taken in {SPEC}: {mc['never_taken']}")
         selftest = {}
